@@ -193,9 +193,23 @@ func runWriteCase(c writeCase) error {
 		err error
 	}
 	resc := make(chan res, 1)
+	// the client goroutine: the first blob, and later (when told to) a second one - from the same goroutine,
+	// as a client connection's handler would, so that whatever per-thread pools the store uses hand the
+	// second receive the buffers the first one gave back
+	secondGo, second := make(chan []byte, 1), make(chan struct{})
 	go func() {
 		sb, err := sto.ReceiveBlob(ctx, ref, bytes.NewReader(data))
 		resc <- res{sb, err}
+		defer close(second)
+		if d2 := <-secondGo; d2 != nil {
+			sto.ReceiveBlob(ctx, blob.RefFromBytes(d2), bytes.NewReader(d2))
+		}
+	}()
+	defer func() {
+		select {
+		case secondGo <- nil:
+		default:
+		}
 	}()
 	waitDone := func(layer string) error {
 		dl := time.Now().Add(30 * time.Second)
@@ -312,20 +326,16 @@ func runWriteCase(c writeCase) error {
 	}
 	// a second blob arrives while the slow replicas have not even started on the first one: whatever the
 	// replicated store keeps of an acknowledged receive must not be disturbed by the next receive
-	second := make(chan struct{})
 	var data2 []byte
 	if got.err == nil && len(released) < c.N {
 		data2 = []byte(fmt.Sprintf("PAYLOAD-%v", c)) // same length as data, other bytes
-		go func() {
-			defer close(second)
-			sto.ReceiveBlob(ctx, blob.RefFromBytes(data2), bytes.NewReader(data2))
-		}()
+		secondGo <- data2
 		select {
 		case <-second:
 		case <-time.After(20 * time.Millisecond):
 		}
 	} else {
-		close(second)
+		secondGo <- nil
 	}
 	releaseRest()
 	for i := 0; i < c.N; i++ {
